@@ -52,7 +52,7 @@ def Ite(c, a, b):
 
 
 def is_symbolic(x):
-    return isinstance(x, (C.SymBool, C.SymInt, C.SymBytes, C.SymBitStr))
+    return isinstance(x, (C.SymBool, C.SymInt, C.SymBytes, C.SymBitStr, C.AsciiText))
 
 
 # ------------------------------------------------------------------------------- conversions used by oracles (both modes)
@@ -171,6 +171,14 @@ class SymCtx(BaseCtx):
         self.kinds[name] = ('bool', 1)
         return C.SymBool(self.eng.fresh_bv(name, 1) == 1)
 
+    def ascii(self, name, n):
+        """ASCII text of n characters (7-bit items; non-ASCII text is outside every claim)"""
+        if n == 0:
+            return ''
+        b = self.bytes_(name, n)
+        self.eng.add(b.bits.bv() & int('80' * n, 16) == 0)
+        return C.AsciiText(b)
+
     def zint(self, name, lo=None, hi=None):
         """mathematical-integer input (integer theory back-end); only for harnesses run with theory='int'"""
         from . import zint
@@ -286,6 +294,8 @@ def conc_value(v, model):
     if isinstance(v, C.SymBytes):
         n = len(v)
         return model.eval(v.bits.bv(), model_completion=True).as_long().to_bytes(n, 'big').hex()
+    if isinstance(v, C.AsciiText):
+        return bytes.fromhex(conc_value(v.b, model)).decode('latin1')
     if isinstance(v, C.SymBitStr):
         n = len(v)
         return format(model.eval(v.bits.bv(), model_completion=True).as_long(), '0%db' % n)
@@ -348,6 +358,9 @@ class ConcCtx(BaseCtx):
 
     def boolean(self, name):
         return bool(self._get(name) & 1)
+
+    def ascii(self, name, n):
+        return bytes(x & 0x7f for x in self.bytes_(name, n)).decode('ascii')
 
     def zint(self, name, lo=None, hi=None):
         return self._get(name)
